@@ -1,6 +1,7 @@
 import MsqProofs.Props.C04
 import MsqProofs.Props.C05
 import MsqProofs.Lemmas.LexScan
+import MsqProofs.Lemmas.LexRetain
 import MsqProofs.Oblig.ScanCfg0
 import MsqProofs.Oblig.ScanCfg1
 import MsqProofs.Oblig.ScanCfg2
@@ -25,6 +26,13 @@ The two findings stay visible:
 * F-C04-2 concerns rendering and is visible in (d).
 
 `C04.unbalanced_rejected_all`: a text whose bracket skeleton is unbalanced is not accepted (any setting).
+
+(d) `C04.retained_concat`: under setting 0 (nothing ignored), for every accepted text the concatenation of the token
+texts as the model renders them (`sourceL`, i.e. `AMTBase.source`: a group renders with ROUND brackets whatever its
+kind — F-C04-2) equals the pre-processed input with exactly the bracket characters that were read as brackets put in
+their round form (`roundBrackets`: brackets inside quotes and comments stay as written); on raw text this is modulo the
+pre-pass (F-C04-3: TAB, CR LF, U+3000 do not come back).  Corollaries: equality up to the kind of bracket characters
+(`retained_concat_map`), and exact reproduction of every input without square brackets (`retained_concat_exact`).
 -/
 namespace C04
 open Lex Scan
@@ -98,5 +106,51 @@ example :
       | .ok ts => skelL ts == [.opn, .opn, .cls .slice, .opn, .cls .paren, .cls .paren] | .error _ => false) = true ∧
     depthOK 0 (bracketSkeleton "f(a[1]".toList) = false ∧ depthOK 0 (bracketSkeleton "a)(".toList) = false ∧
     depthOK 0 (bracketSkeleton "')' /* ( */".toList) = true := by decide +kernel
+
+/-! ## (d) retention -/
+
+/-- the table of setting 0 never drops a window silently: the only operations that discard characters are the bracket
+operations, which advance, between tokens, on a bracket character of their direction -/
+theorem retainOK_cfg0 : retainOK Gen.Cfg0.cfg = true := by decide +kernel
+
+/-- … and it is the only such setting (every other one ignores blanks, line breaks or comments) -/
+example : retainOK Gen.Cfg1.cfg = false ∧ retainOK Gen.Cfg2.cfg = false ∧ retainOK Gen.Cfg4.cfg = false ∧
+    retainOK Gen.Cfg7.cfg = false := by decide +kernel
+
+/-- **C04.retained_concat** (d): under setting 0, for every accepted text, the rendered token texts concatenate to the
+pre-processed input with the brackets that were read as brackets in round form. -/
+theorem retained_concat (raw : List Char) (ts : List Tok) (h : lex (cfgOf 0) raw = .ok ts) :
+    sourceL ts = roundBrackets ((cfgOf 0).pre raw) :=
+  lex_retained Gen.Cfg0.cfg Gen.Cfg0.advSt Gen.Cfg0.wk Oblig.tableOK_cfg0 (summarizable 0) retainOK_cfg0
+    (lookup_norm 0) (scanSim 0) (depth_le 0) raw ts h
+
+/-- … hence equality up to the kind of the bracket characters -/
+theorem retained_concat_map (raw : List Char) (ts : List Tok) (h : lex (cfgOf 0) raw = .ok ts) :
+    (sourceL ts).map nbc = ((cfgOf 0).pre raw).map nbc := by
+  rw [retained_concat raw ts h]; exact rbAll_map _ _
+
+theorem roundBrackets_id (μ : Scan.Mode) (t : List Char) (h : ∀ c ∈ t, c ≠ '[' ∧ c ≠ ']') : (rbAll μ t).2 = t := by
+  induction t generalizing μ with
+  | nil => rfl
+  | cons c cs ih =>
+    have hc := h c (by simp)
+    have : nbc c = c := by simp [nbc, hc.1, hc.2]
+    simp only [rbAll, this, ite_self]
+    rw [ih _ fun d hd => h d (by simp [hd])]
+
+/-- … and exact reproduction ("concatenating the token texts reproduces the input") of every accepted input that
+contains no square bracket -/
+theorem retained_concat_exact (raw : List Char) (ts : List Tok) (h : lex (cfgOf 0) raw = .ok ts)
+    (hsq : ∀ c ∈ (cfgOf 0).pre raw, c ≠ '[' ∧ c ≠ ']') : sourceL ts = (cfgOf 0).pre raw := by
+  rw [retained_concat raw ts h]; exact roundBrackets_id _ _ hsq
+
+/-- non-vacuity, F-C04-2 and F-C04-3 on the model: nested mixed brackets render round, brackets inside quotes and
+comments come back as written, blanks and comments are retained, a TAB comes back as a blank -/
+example :
+    roundBrackets "f(a[1], '[' /* ] */ \"[\" `]` (b]) -- [\n".toList = "f(a(1), '[' /* ] */ \"[\" `]` (b)) -- [\n".toList ∧
+    (match lex (cfgOf 0) "f(a[1], '[' /* ] */ \"[\" `]` (b]) -- [\n".toList with
+      | .ok ts => sourceL ts == "f(a(1), '[' /* ] */ \"[\" `]` (b)) -- [\n".toList | .error _ => false) = true ∧
+    (match lex (cfgOf 0) "a\t[1]".toList with | .ok ts => sourceL ts == "a (1)".toList | .error _ => false) = true := by
+  decide +kernel
 
 end C04
